@@ -31,6 +31,11 @@ class Node:
         Type that the node evaluates to.
     """
 
+    # Make NumPy defer to the reflected operators of AST nodes, so that a bare
+    # array as left operand is rejected like one as right operand (instead of
+    # NumPy broadcasting the operation over the array's elements).
+    __array_ufunc__ = None
+
     def __init__(self, type_):
         self.type = type_
 
